@@ -272,6 +272,12 @@ def make_race2(prog, max_preempt):
                 problems.append('step %d %s %s: %s' % v[:4])
             bands, blocks = B.decode_bands(ex, st)
             matched = {}
+            # "the loser fails rather than writing into the winner's version": every file of a new version comes from one run
+            for b in sorted(bands):
+                who = sorted({a for p, ws in st.writers.items() if p.startswith('b%04d/' % b) for a in ws})
+                if b != 0 and len(who) > 1:
+                    problems.append('b%04d holds files written by both runs (%s): the loser of the race for the band wrote into the winner\'s version'
+                                    % (b, ', '.join('%s:%s' % (ws[0], p) for p, ws in sorted(st.writers.items()) if p.startswith('b%04d/' % b))[:200]))
             for b, info in sorted(bands.items()):
                 if b == 0 or not info.get('tail'):
                     continue
